@@ -13,7 +13,12 @@ Tie        : translator (GenRepoint) + correspondence
                           clock (equal / decreasing timestamps) and seeded uuid4; after EVERY step the
                           metadata JSON and manifests, read by an independent reader (json + fastavro), must
                           equal the model's state (ids canonicalised by order of first appearance)
-               lookups    get_snapshot_by_timestamp / get_snapshot_by_id / _most_recent_snapshot_id vs model
+               lookups    get_snapshot_by_timestamp / get_snapshot_by_id / _most_recent_snapshot_id vs model,
+                          on the states the histories reach
+               units      every mutator, one call each (_apply_retention, the expire mutator, delete_snapshot,
+                          _most_recent_snapshot_id, get_snapshot_by_timestamp, _append_metadata_log) on ARBITRARY
+                          metadata records, including corrupt ones no history reaches (duplicated ids, dangling
+                          links, unusable snapshot log), vs the model functions
 Oracle /   : implementation-only, independent of the model: the well-formedness predicate of the property
 search       text judged directly on the implementation's metadata after every step, with a ghost history
              kept by the harness (true ancestors, commit order, provenance of manifest entries, superseded
@@ -199,7 +204,7 @@ def gen_history(rng: random.Random, max_steps: int) -> Dict[str, Any]:
                 q = rng.random()
                 if q < 0.35:
                     sub.append(["append", ["auto"]] if rng.random() < 0.6 else
-                               ["append", [rng.choice([0, 1]) for _j in range(rng.choice([1, 2, 3]))]])
+                               ["append", [rng.choice([0, 1]) for _j in range(rng.choice([0, 1, 2, 3]))]])
                 elif q < 0.75:
                     sub.append(["delete", [[rng.randrange(64), rng.choice([0, 1, 1, 2])] for _j in range(rng.choice([0, 1, 1, 2, 3]))]])
                 else:
@@ -215,10 +220,12 @@ def gen_history(rng: random.Random, max_steps: int) -> Dict[str, Any]:
             ops.append({"k": "setret", "v": rng.choice(RET_VALUES), "tu": tu})
         elif r < 0.96:
             ops.append({"k": "setmax", "v": rng.choice(MAX_VALUES), "tu": tu})
-        elif r < 0.98:
+        elif r < 0.97:
             ops.append({"k": "txn", "ops": [], "t": next_t(), "tu": tu})
-        else:
+        elif r < 0.985:
             ops.append({"k": "gc"})
+        else:
+            ops.append({"k": "reopen"})
     return {"ops": ops, "uuid_seed": rng.getrandbits(32), "t0": rng.choice(TS_POOL)}
 
 
@@ -354,6 +361,9 @@ class Driver:
             except Exception as e:
                 exc = f"{type(e).__name__}: {e}"[:300]
             model_op = f"{'SetRetention' if op['k'] == 'setret' else 'SetPrevMax'} {pval_coq(op['v'])} ({op['tu']}) {sid}"
+        elif op["k"] == "reopen":
+            from datashard import load_table
+            self.table = t = load_table(self.root)       # a fresh handle: nothing may live in the old one
         elif op["k"] == "gc":
             try:
                 t.garbage_collect(grace_period_ms=0)
